@@ -426,6 +426,6 @@ def run(ctx):
     ctx.rule = RULE
     ctx.assumptions = ["native twin rendered from the same AST is the reference (no short-circuit in 'and', public loop bounds)",
                        "recorder, evaluator; values stay below 2^31 by construction (bitlength 32)"]
-    n = 40 if ctx.tier == "quick" else 1500
+    n = 100 if ctx.tier == "quick" else 2000
     ctx.stats = core.run_shards("harness.checks.c09", "shard",
                                 [dict(seed=ctx.seed * 1000 + i, n_examples=n) for i in range(16)])
